@@ -308,7 +308,14 @@ def intrinsic_of(spec, res):
 
 
 def css_len(v):
-    return 'auto' if v is None else '%s%s' % (v[1], 'px' if v[0] == 'px' else '%')
+    return 'auto' if v is None else '%s%s' % (v[1], {'px': 'px', 'pct': '%', 'em': 'em'}[v[0]])
+
+
+def norm_dim(u, v):
+    """em lengths are computed against the font-size of the element that declares them"""
+    if v is not None and v[0] == 'em':
+        return ('px', str(F(v[1]) * F(u.get('fs', 10))))
+    return v
 
 
 def gen_dim(rng, auto=0.45):
@@ -416,6 +423,40 @@ def use_html(u):
     return '<div style="%s">%s</div>' % (cont, inner)
 
 
+
+def gen_canvas_doc(rng):
+    """a background declared on <body> (html has none) or on <html>: propagated to the canvas, painted with the
+    declaring element's style (image-resolution, font-size for em, size/position/repeat) on the page area"""
+    pool = {}
+    r = rng.random()
+    if r < 0.7:
+        pool['c0.png'] = dict(kind='png', mode=rng.choice(['RGB', 'RGBA', 'L']), w=rng.randint(2, 12), h=rng.randint(2, 12),
+                              seed=rng.randrange(10 ** 6), trns=False)
+    elif r < 0.85:
+        pool['c0.jpg'] = dict(kind='jpeg', mode='RGB', w=rng.randint(4, 16), h=rng.randint(4, 16), seed=rng.randrange(10 ** 6), quality=90)
+    else:
+        pool['c0.svg'] = dict(kind='svg', seed=rng.randrange(10 ** 6), w=rng.choice([8, 20]), h=rng.choice([6, 10]), vb=None)
+    u = gen_bg_use(rng, 0, pool)
+    mx, my = rng.choice([(0, 0), (0, 0), (20, 10), (7, 13)])
+    def em_or(v):
+        return ('em', rng.choice(['1', '2', '1.5'])) if rng.random() < 0.3 else v
+    if not isinstance(u['size'], str):
+        u['size'] = [em_or(u['size'][0]), em_or(u['size'][1])]
+    u.update(id='canvas', W=300 - 2 * mx, H=200 - 2 * my, P=0, B=0, fs=20, where=rng.choice(['body', 'html']),
+             res=rng.choice([None, '2', '2', '0.5', '4']), px=em_or(u['px']), py=em_or(u['py']))
+    size = u['size'] if isinstance(u['size'], str) else '%s %s' % (css_len(u['size'][0]), css_len(u['size'][1]))
+    pos = '%s %s %s %s' % ('right' if u['right'] else 'left', css_len(u['px']), 'bottom' if u['bottom'] else 'top', css_len(u['py']))
+    decl = ('font-size:20px;background-image:url(%s);background-size:%s;background-position:%s;background-repeat:%s %s;'
+            'background-origin:%s;background-clip:%s' % (u['name'], size, pos, u['rx'], u['ry'], u['origin'], u['clip']))
+    if u['res']:
+        decl += ';image-resolution:%sdppx' % u['res']
+    if u['pixelated']:
+        decl += ';image-rendering:pixelated'
+    html = ('<style>@page{size:300px 200px;margin:%dpx %dpx}html{margin:0;padding:0;%s}body{margin:0;height:50px;%s}</style>'
+            '<body><p style="margin:0;font-size:10px">ab</p>' % (my, mx, decl if u['where'] == 'html' else '', decl if u['where'] == 'body' else ''))
+    return dict(images=pool, uses=[u], html=html, pdf_options={'uncompressed_pdf': True})
+
+
 def gen_monitor_doc(rng):
     pool = gen_pool(rng)
     uses = []
@@ -519,7 +560,8 @@ def coq_bgmon_case(u, spec, layer, draw):
     pw, ph, off = box_dims(u, u['origin'])
     paw, pah, _ = box_dims(u, u['clip'])
     size = {'cover': 'BCover', 'contain': 'BContain'}.get(u['size']) if isinstance(u['size'], str) else \
-        '(BSize %s %s)' % (olp(u['size'][0]), olp(u['size'][1]))
+        '(BSize %s %s)' % (olp(norm_dim(u, u['size'][0])), olp(norm_dim(u, u['size'][1])))
+    u = dict(u, px=norm_dim(u, u['px']), py=norm_dim(u, u['py']))
     if layer is None or layer['unused']:
         out = 'None'
         ox, oy = off, F(0)
@@ -625,7 +667,8 @@ def monitor_prepare(run, docs, outs):
                         expected_x.add((u['name'], not u['pixelated']))
                         xo = o['xobjects'].get(str(dr['obj'])) or o['xobjects'].get(dr['obj'])
                         check_xobject(fail, d, uid, u['name'], spec, xo, lossy_jpeg, lossy_all)
-                seen.add(('bg', u['rx'], u['ry'], u['size'] if isinstance(u['size'], str) else 'pair', u['origin'], u['clip'], spec['kind']))
+                seen.add(('bg', u.get('where', 'box'), u['res'], u['rx'], u['ry'], u['size'] if isinstance(u['size'], str) else
+                          tuple(v and v[0] for v in u['size']), u['origin'], u['clip'], spec['kind']))
         # each distinct image embedded once
         n_x += len(o['xobjects'])
         if len(o['xobjects']) != len(expected_x):
@@ -852,6 +895,151 @@ def xobject_finish(run, xo, ndocs):
                          'orientation, EXIF, options)')
 
 
+
+# ------------------------------------------------------------------------------------------------ SVG viewBox -> viewport
+
+PRE_S = ('From Coq Require Import QArith List Bool.\nRequire Import WV.model.C13Replaced WV.model.C13Svg.\n'
+         'Import ListNotations.\nOpen Scope Q_scope.\n')
+ALIGNS = ['Min', 'Mid', 'Max']
+PARS = [None, 'none'] + ['x%sY%s%s' % (a, b, m) for a in ALIGNS for b in ALIGNS for m in ('', ' meet', ' slice')]
+
+
+def par_code(par):
+    if par is None:
+        return 5
+    if par == 'none':
+        return 0
+    align, _, mos = par.partition(' ')
+    return 1 + 3 * ALIGNS.index(align[1:4]) + ALIGNS.index(align[5:]) + (9 if mos == 'slice' else 0)
+
+
+def gen_pr(rng, n):
+    cases = []
+    for par in PARS:
+        for vb in (['10', '20', '40', '20'], ['-5', '-8', '20', '40'], ['0', '0', '30', '30']):
+            for w, h in (('100', '100'), ('120', '30')):
+                cases.append(dict(vb=vb, via=rng.choice(['node', 'arg']), par=par, root=rng.random() < 0.5, intr=[None, None], w=w, h=h))
+    for par in (None, 'none', 'xMaxYMin slice'):
+        for root, intr in ((True, ['30', '20']), (True, [None, '20']), (False, ['30', '20'])):
+            cases.append(dict(vb=None, via='node', par=par, root=root, intr=intr, w='100', h='100'))
+        cases.append(dict(vb=['3', '4', '0', '20'], via='node', par=par, root=True, intr=[None, None], w='50', h='60'))
+    while len(cases) < n:
+        vb = [fs(rq(rng, -50, 50)), fs(rq(rng, -50, 50)), fs(rq(rng, 1, 200)), fs(rq(rng, 1, 200))]
+        cases.append(dict(vb=vb, via=rng.choice(['node', 'arg']), par=rng.choice(PARS), root=rng.random() < 0.5,
+                          intr=[None, None], w=fs(rng.choice([F(0), rq(rng, 1, 400)])), h=fs(rq(rng, 0, 400))))
+    return cases
+
+
+def coq_pr_case(c, o):
+    if o == 'raise' or any(x.startswith('f:') for x in o):
+        return None
+    vb = 'None' if c['vb'] is None else '(Some (%s))' % ', '.join(qlit(F(x)) for x in c['vb'])
+    intr = '(Some (%s, %s))' % (qlit(F(c['intr'][0])), qlit(F(c['intr'][1]))) \
+        if c['vb'] is None and c['root'] and None not in c['intr'] else 'None'
+    return '(%s, %s, %d%%nat, %s, %s, (%s))' % (vb, intr, par_code(c['par']), qlit(F(c['w'])), qlit(F(c['h'])),
+                                              ', '.join(qlit(F(x)) for x in o))
+
+
+def gen_svg_docs(rng, k):
+    items = []
+    n = 0
+    for rep in range(k):
+        for par in PARS:
+            for kind in ('img', 'bg', 'inline'):
+                vb = [rng.choice([0, 0, 7, 10, -5, 33]), rng.choice([0, 12, 20, -8]), rng.choice([20, 40, 41, 57]) + n % 7,
+                      rng.choice([10, 20, 30, 64])]
+                vw, vh = rng.choice([(100, 100), (120, 30), (60, 90), (150, 40), (2 * vb[2], 2 * vb[3])])
+                it = dict(id='s%d' % n, kind=kind, vb=vb, par=par, color=rng.randrange(1, 0xffffff), fit='fill',
+                          right=False, bottom=False, px=('pct', '50'), py=('pct', '50'), vw=vw, vh=vh)
+                if kind == 'img':
+                    it['fit'] = rng.choice(['fill', 'fill', 'fill', 'contain', 'cover', 'none', 'scale-down'])
+                    it['px'], it['py'] = gen_pos(rng), gen_pos(rng)
+                    it['right'], it['bottom'] = rng.random() < 0.3, rng.random() < 0.3
+                    it['css'] = 'width:%dpx;height:%dpx;object-fit:%s;object-position:%s %s %s %s' % (
+                        vw, vh, it['fit'], 'right' if it['right'] else 'left', css_len(it['px']),
+                        'bottom' if it['bottom'] else 'top', css_len(it['py']))
+                elif kind == 'bg':
+                    it['bpos'] = (rng.choice([0, 10, -6]), rng.choice([0, 20, 5]))
+                    it['css'] = 'width:170px;height:110px;background-size:%dpx %dpx;background-position:%dpx %dpx' % (
+                        vw, vh, it['bpos'][0], it['bpos'][1])
+                else:
+                    it['css'] = 'width:%dpx;height:%dpx' % (vw, vh)
+                items.append(it)
+                n += 1
+    rng.shuffle(items)
+    return [dict(items=items[i:i + 8]) for i in range(0, len(items), 8)]
+
+
+def coq_svgmon_case(it, geo, rect):
+    vb = ', '.join(qlit(F(v)) for v in it['vb'])
+    if it['kind'] == 'img':
+        ratio = F(it['vb'][2], it['vb'][3])
+        vp = '(VFit %d%%nat %s %s %s %s %s %s (None, None, (Some %s)) %s %s)' % (
+            FITS.index(it['fit']), blit(it['right']), blit(it['bottom']), lp(it['px']), lp(it['py']), fq(geo['w']), fq(geo['h']),
+            qlit(ratio), fq(geo['cx']), fq(geo['cy']))
+    elif it['kind'] == 'bg':
+        vp = '(VDirect %s %s %s %s)' % (fq(F(geo['positioning'][0]) + F(geo['position'][0])),
+                                        fq(F(geo['positioning'][1]) + F(geo['position'][1])), fq(geo['size'][0]), fq(geo['size'][1]))
+    else:
+        vp = '(VDirect %s %s %s %s)' % (fq(geo['cx']), fq(geo['cy']), fq(geo['w']), fq(geo['h']))
+    return '((%s), %d%%nat, %s, (%s, %s, %s, %s))' % (vb, par_code(it['par']), vp, fq(rect['x']), fq(rect['y']), fq(rect['w']),
+                                                     fq(rect['h']))
+
+
+def svg_prepare(run, docs, outs):
+    cases, meta, seen = [], [], set()
+    for d, (st, o) in zip(docs, outs):
+        if st != 'ok':
+            run.fail('svg_probe raised %s' % (o if st == 'timeout' else (o['type'], o['site'], o['msg'])),
+                     dict(stream='svg-viewbox', items=d['items'], outcome=str(o)[:800]),
+                     signature='crash:%s' % ((o or {}).get('site'),) if st == 'exc' else 'timeout')
+            continue
+        for it in d['items']:
+            r = o['items'].get(it['id']) or {}
+            geo, rects = r.get('geo'), r.get('rects') or []
+            what = '%s, viewBox %s, preserveAspectRatio %s, viewport %sx%s, object-fit %s' % (
+                it['kind'], it['vb'], it['par'], it['vw'], it['vh'], it['fit'])
+            if geo is None or len(rects) != 1 or rects[0]['skew'] != [0.0, 0.0]:
+                run.fail('SVG %s: %d viewBox rectangles painted (geometry %s)' % (what, len(rects), geo),
+                         dict(stream='svg-viewbox', item=it), signature='c13:svg-rect-count')
+                continue
+            if it['kind'] == 'bg' and [geo['size'][0], geo['size'][1]] != [it['vw'], it['vh']]:
+                run.fail('SVG background layer size %s, background-size %sx%s' % (geo['size'], it['vw'], it['vh']),
+                         dict(stream='svg-viewbox', item=it), signature='c13:svg-bg-size')
+                continue
+            cases.append(coq_svgmon_case(it, geo, rects[0]))
+            meta.append(it)
+            seen.add((it['kind'], it['par'], it['fit'], it['vb'][0] != 0, it['vb'][1] != 0,
+                      it['vw'] * it['vb'][3] != it['vh'] * it['vb'][2]))
+    return dict(cases=cases, meta=meta, seen=seen)
+
+
+def svg_finish(run, sv, ndocs):
+    try:
+        masks = sv['future'].result()
+    except RuntimeError as exc:
+        run.oblige('corr:svg-viewbox', False, str(exc))
+        return
+    mism = [(it['kind'], it['vb'], it['par'], it['css']) for it, k in zip(sv['meta'], masks) if k & 1]
+    run.oblige('corr:svg-viewbox(preserve_ratio model vs the rectangle painted in the PDF)', not mism, 'first disagreements: %s' % mism[:3])
+    done = set()
+    for it, k, case in zip(sv['meta'], masks, sv['cases']):
+        for b, what in ((2, 'is not where SVG 1.1 7.8 puts it'), (1, 'differs from the preserve_ratio model')):
+            if k & b and b not in done:
+                done.add(b)
+                run.fail('SVG as %s: the viewBox %s with preserveAspectRatio=%s in a %sx%s viewport (object-fit %s) %s' % (
+                    it['kind'], it['vb'], it['par'], it['vw'], it['vh'], it['fit'], what),
+                    dict(stream='svg-viewbox', item=it, coq_case=case, mask=k), signature='c13:svg-viewbox-%d' % b)
+    run.count('svg-viewbox', len(sv['cases']), sv['seen'], samples=[sv['cases'][0][:300]] if sv['cases'] else [])
+    run.stream_info('svg-viewbox', documents=ndocs,
+                    rule='SVG documents with one viewBox-filling <rect>, viewBox min-x/min-y zero and non-zero, every '
+                         'preserveAspectRatio (default, none, 9 alignments x default/meet/slice), viewport ratio equal to or different '
+                         'from the viewBox ratio, used as <img> (every object-fit, object-position), as no-repeat background '
+                         '(background-size/position) and as inline <svg>; the rectangle painted in the content stream (re + cm, '
+                         'through form XObjects) is judged in Coq against preserve_ratio and against viewbox_placed; distinct = '
+                         '(use, preserveAspectRatio, object-fit, non-zero min-x, non-zero min-y, ratio differs)')
+
+
 # ------------------------------------------------------------------------------------------------ streams
 
 def has_float(out):
@@ -864,6 +1052,7 @@ class Job:
         self.name, self.impl_fn, self.cases, self.to_coq = name, impl_fn, cases, to_coq
         self.case_type, self.judge, self.key, self.what, self.info = case_type, judge, key, what, info
         self.outs = self.future = None
+        self.pre = None
         self.kept, self.coq_cases = [], []
 
     def prepare(self, run):
@@ -941,7 +1130,11 @@ def check(run):
         Job('layout-direct', 'rb_layout', gen_layout(rng, 1500 * k), coq_layout_case, LAYOUT_T, 'layout_judge',
             lambda c, o: (c['fit'], nonepat(c), c['right'], c['bottom'], c['px'][0], c['py'][0], o == 'raise', c['bw'], c['bh']),
             'object-fit / object-position (contain inside, cover covers, scale-down, alignment, inside content box)'),
-        bg_job(rng, k)] + stream_jobs(rng, k)
+        bg_job(rng, k),
+        Job('preserve-ratio-direct', 'preserve_ratio_direct', gen_pr(rng, 600 * k), coq_pr_case, 'pr_case', 'pr_judge',
+            lambda c, o: (c['par'], c['vb'] is None, c['via'], c['root'], o == 'raise', c['w'], c['h']),
+            'SVG 1.1 7.8 (viewBox onto the viewport: none / meet / slice, alignment)')] + stream_jobs(rng, k)
+    jobs[-3].pre = PRE_S
     rules = {
         'constraint-direct': '108 small combinations (ratio None/0/negative included) + random rationals; '
                              'distinct = (ratio None?, cover, raises, wider-than-ratio, cw, ch)',
@@ -958,35 +1151,44 @@ def check(run):
                              'kind, repeats, outcome, units, area)',
         'add-image-direct': 'random sequences of 0..30 Stream.add_image calls over 2-4 image ids (prefix-related ids included), both '
                             'interpolate flags, few dpi ratios; distinct = (id set, calls, entries)',
+        'preserve-ratio-direct': 'svg.utils.preserve_ratio on stub nodes with Fractions: every preserveAspectRatio x viewBoxes with '
+                                 'zero / non-zero / negative origin x viewports, root without viewBox (intrinsic size), zero-width '
+                                 'viewBox, + random rationals; distinct = (preserveAspectRatio, no viewBox, how passed, root, raises, viewport)',
         'use-references-direct': '1..9 resource dictionaries (page, groups, patterns) naming 1..6 images, processed by '
                                  'pdf._use_references with counting stub images; distinct = (dictionaries, keys, references)'}
-    docs = fixed_docs() + [gen_monitor_doc(rng) for _ in range(200 * k)]
+    docs = fixed_docs() + [gen_monitor_doc(rng) for _ in range(200 * k)] + [gen_canvas_doc(rng) for _ in range(40 * k)]
     xdocs = gen_xobject_docs(rng, 3 if thorough else 1)
+    sdocs = gen_svg_docs(rng, 4 if thorough else 1)
     # ---- one worker pool for every implementation call
     t0 = time.time()
     allc = [dict(fn=j.impl_fn, case=c) for j in jobs for c in j.cases]
     allc += [dict(fn='render_images', case=dict(images=d['images'], html=d['html'], pdf_options=d['pdf_options'])) for d in docs]
     allc += [dict(fn='xobject_probe', case=dict(items=[dict(id=i['id'], spec=i['spec'], orientation=i['orientation'])
                                                        for i in d['items']], options=d['options'])) for d in xdocs]
+    allc += [dict(fn='svg_probe', case=dict(items=d['items'])) for d in sdocs]
     outs = common.run_impl('impl_c13', 'dispatch', allc, limit=60, chunksize=4)
     pos = 0
     for j in jobs:
         j.outs = outs[pos:pos + len(j.cases)]
         pos += len(j.cases)
     mon_outs = outs[pos:pos + len(docs)]
-    x_outs = outs[pos + len(docs):]
+    x_outs = outs[pos + len(docs):pos + len(docs) + len(xdocs)]
+    s_outs = outs[pos + len(docs) + len(xdocs):]
     t1 = time.time()
     # ---- Coq judges, concurrently
     with ThreadPoolExecutor(max_workers=6) as ex:
         for j in jobs:
             j.prepare(run)
-            j.future = ex.submit(common.eval_cases, 'c13' + j.name.replace('-', ''), PRE, j.case_type, j.coq_cases, j.judge)
+            j.future = ex.submit(common.eval_cases, 'c13' + j.name.replace('-', ''), j.pre or PRE, j.case_type, j.coq_cases, j.judge)
         mon = monitor_prepare(run, docs, mon_outs)
         mon['futures'] = [ex.submit(common.eval_cases, 'c13' + tag, PRE, ctype, cases, judge)
                           for tag, cases, meta, ctype, judge in mon['evals']]
         xo = xobject_prepare(run, xdocs, x_outs)
         xo['future'] = ex.submit(common.eval_cases, 'c13xo', PRE_Z, 'xo_case', xo['cases'], 'xo_judge')
+        sv = svg_prepare(run, sdocs, s_outs)
+        sv['future'] = ex.submit(common.eval_cases, 'c13sv', PRE_S, 'svgmon_case', sv['cases'], 'svgmon_judge')
     xobject_finish(run, xo, len(xdocs))
+    svg_finish(run, sv, len(sdocs))
     for j in jobs:
         j.finish(run)
         run.stream_info(j.name, rule=rules[j.name])
@@ -1077,6 +1279,19 @@ def replay(data):
         with ThreadPoolExecutor(1) as ex:
             xo['future'] = ex.submit(common.eval_cases, 'c13rxo', PRE_Z, 'xo_case', xo['cases'], 'xo_judge')
         xobject_finish(rr, xo, 1)
+    elif stream == 'svg-viewbox':
+        items = [d['item']] if 'item' in d else d.get('items', [])
+        for it in items:
+            for k in ('px', 'py', 'bpos'):
+                if isinstance(it.get(k), list):
+                    it[k] = tuple(it[k])
+        doc = dict(items=items)
+        outs = common.run_impl('impl_c13', 'svg_probe', [dict(items=items)])
+        print('replay: implementation output', str(outs)[:1500])
+        sv = svg_prepare(rr, [doc], outs)
+        with ThreadPoolExecutor(1) as ex:
+            sv['future'] = ex.submit(common.eval_cases, 'c13rsv', PRE_S, 'svgmon_case', sv['cases'], 'svgmon_judge')
+        svg_finish(rr, sv, 1)
     elif stream == 'render-monitor':
         def tup(u):
             u = dict(u)
@@ -1106,7 +1321,8 @@ def replay(data):
                 '(oq * oq * oq) * oq * oq * Q * Q * option (Q * Q)', 'default_judge', lambda c, o: 0, 'n/a'),
             Job('sizing-direct', 'sizing', [], coq_sizing_case, SIZING_T, 'sizing_judge', lambda c, o: 0, 'CSS 2.1 10.3.2/10.6.2/10.4'),
             Job('layout-direct', 'rb_layout', [], coq_layout_case, LAYOUT_T, 'layout_judge', lambda c, o: 0, 'object-fit/position'),
-            Job('background-direct', 'bg_layer', [], coq_bg_case, 'bg_case', 'bg_judge', lambda c, o: 0, 'background layer')]
+            Job('background-direct', 'bg_layer', [], coq_bg_case, 'bg_case', 'bg_judge', lambda c, o: 0, 'background layer'),
+            Job('preserve-ratio-direct', 'preserve_ratio_direct', [], coq_pr_case, 'pr_case', 'pr_judge', lambda c, o: 0, 'SVG 1.1 7.8')]
             + stream_jobs(rng, 0)}
         j = jobs.get(stream)
         if j is None or 'case' not in d:
@@ -1123,7 +1339,8 @@ def replay(data):
         print('replay: implementation output', j.outs)
         j.prepare(rr)
         with ThreadPoolExecutor(1) as ex:
-            j.future = ex.submit(common.eval_cases, 'c13r' + j.name.replace('-', ''), PRE, j.case_type, j.coq_cases, j.judge)
+            j.future = ex.submit(common.eval_cases, 'c13r' + j.name.replace('-', ''), PRE_S if j.name == 'preserve-ratio-direct' else PRE,
+                                 j.case_type, j.coq_cases, j.judge)
         j.finish(rr)
     bad = [o for o in rr.obl if not o[1]]
     for w, sg in rr.fails:
